@@ -291,7 +291,7 @@ def minimise(exe, seed, first, workload_keys, classify=None, budget_runs=250, bu
 # ---- known findings ----------------------------------------------------------------------------------------
 def load_known(pid):
     out = []
-    p = os.path.join(VERIF, "known_findings.txt")
+    p = os.environ.get("VERIF_KNOWN") or os.path.join(VERIF, "known_findings.txt")
     if not os.path.exists(p): return out
     for line in open(p):
         line = line.strip()
